@@ -124,6 +124,7 @@ func c13Run(r *Run) {
 				fStatus = st.Field(i)
 			}
 		}
+		var testedInCommit *types.Var
 		for _, fd := range funcDecls(pkg) {
 			if recvTypeName(fd) != "bufferedWriter" {
 				continue
@@ -155,7 +156,64 @@ func c13Run(r *Run) {
 			if callsRawWH && len(trueBools) > 0 && fHeaderSent == nil {
 				fHeaderSent = trueBools[0]
 			}
+			if callsRawWH {
+				// fallback: the bool field tested in the committing method (the flag may be the very
+				// thing a defect forgets to set)
+				ast.Inspect(fd.Body, func(n ast.Node) bool {
+					if is, ok := n.(*ast.IfStmt); ok && testedInCommit == nil {
+						ast.Inspect(is.Cond, func(m ast.Node) bool {
+							if e, ok := m.(ast.Expr); ok {
+								if f := selField(e); f != nil && own(f) {
+									if b, ok := f.Type().Underlying().(*types.Basic); ok && b.Kind() == types.Bool {
+										testedInCommit = f
+									}
+								}
+							}
+							return true
+						})
+					}
+					return true
+				})
+			}
 			_ = setsStatus
+		}
+		if fHeaderSent == nil {
+			fHeaderSent = testedInCommit
+		}
+		if fHeaderSent == nil {
+			// last resort: the bool whose negation guards a call of the own WriteHeader
+			for _, fd := range funcDecls(pkg) {
+				if recvTypeName(fd) != "bufferedWriter" {
+					continue
+				}
+				ast.Inspect(fd.Body, func(n ast.Node) bool {
+					is, ok := n.(*ast.IfStmt)
+					if !ok || fHeaderSent != nil {
+						return true
+					}
+					calls := false
+					ast.Inspect(is.Body, func(m ast.Node) bool {
+						if c, ok := m.(*ast.CallExpr); ok {
+							if se, ok := ast.Unparen(c.Fun).(*ast.SelectorExpr); ok && se.Sel.Name == "WriteHeader" {
+								calls = true
+							}
+						}
+						return true
+					})
+					if !calls {
+						return true
+					}
+					ast.Inspect(is.Cond, func(m ast.Node) bool {
+						if u, ok := m.(*ast.UnaryExpr); ok && u.Op == token.NOT {
+							if f := selField(u.X); f != nil && own(f) && fHeaderSent == nil {
+								fHeaderSent = f
+							}
+						}
+						return true
+					})
+					return true
+				})
+			}
 		}
 		for _, fd := range funcDecls(pkg) {
 			if recvTypeName(fd) != "bufferedWriter" {
